@@ -298,6 +298,58 @@ theorem whitener_setter_overrides {ε : Type}
 
 end linear
 
+/-! ### below the guards: what the code does with columns it treats as constant -/
+section subeps
+variable {α : Type} [Field α] [LinearOrder α] [IsStrictOrderedRing α] [Transc α]
+
+theorem invOrOne_of_le (eps s : α) (hs : 0 ≤ s) (h : s ≤ eps) : invOrOne eps s = 1 := by
+  unfold invOrOne absDiffEq
+  rw [absS_eq, sub_zero, abs_of_nonneg hs]
+  simp [h]
+
+/-- **below the guard nothing is scaled** (open finding `C16-sub-eps-standard`, for every matrix): a column
+whose standard deviation is at most `eps` — constant or not — keeps its variance; so a non-constant
+column with `0 < std ≤ eps` does not come out with variance one. -/
+theorem standard_sub_eps_unscaled (hsq : SqrtContract α) (eps : α) (p : Nat)
+    (rows : List (List α)) (wm : Bool)
+    (hn : rows ≠ []) (hrows : ∀ r ∈ rows, r.length = p) (j : Nat) (hj : j < p)
+    (hsub : stdCol (col rows j) ≤ eps) :
+    ∃ sc y, fitStandard eps p rows wm true = .ok sc ∧ transform sc p rows = some y ∧
+      varCol 0 (col y j) = varCol 0 (col rows j) := by
+  obtain ⟨sc, y, h1, h2, h3⟩ := standard_column eps p rows wm true hn hrows j hj
+  refine ⟨sc, y, h1, h2, ?_⟩
+  rw [h3, varCol_affine]
+  simp only [stdScale, if_true]
+  have hnn : 0 ≤ stdCol (col rows j) := (hsq _ (varCol_nonneg _)).2
+  rw [invOrOne_of_le eps _ hnn hsub]
+  ring
+
+/-- the same for max-abs scaling (open finding `C16-sub-eps-maxabs`): a column with `max|x| ≤ eps` is
+returned as it is, so its maximum absolute value stays `max|x|`, not one. -/
+theorem maxabs_sub_eps_unscaled (eps : α) (p : Nat) (rows : List (List α))
+    (hn : rows ≠ []) (hrows : ∀ r ∈ rows, r.length = p) (j : Nat) (hj : j < p)
+    (hsub : normMax (col rows j) ≤ eps) :
+    ∃ sc y, fitMaxAbs eps p rows = .ok sc ∧ transform sc p rows = some y ∧ col y j = col rows j := by
+  have hlen : ¬ rows.length = 0 := by
+    intro h; exact hn (List.length_eq_zero_iff.mp h)
+  let sc : Scaler α :=
+    { offsets := (cols p rows).map (fun _ => 0)
+      scales := (cols p rows).map (fun c => invOrOne eps (normMax c))
+      method := .maxAbs }
+  have hfit : fitMaxAbs eps p rows = .ok sc := by
+    unfold fitMaxAbs; rw [if_neg hlen]
+  have ho : sc.offsets.length = p := by simp [sc, cols]
+  have hs : sc.scales.length = p := by simp [sc, cols]
+  refine ⟨sc, rows.map (transformRow sc), hfit, transform_some sc p rows ho hrows, ?_⟩
+  rw [col_map_transformRow sc p rows ho hs hrows j hj]
+  have hoj : sc.offsets.getD j 0 = 0 := getD_cols_map (fun _ => (0 : α)) p rows j hj
+  have hsj : sc.scales.getD j 0 = invOrOne eps (normMax (col rows j)) :=
+    getD_cols_map (fun c => invOrOne eps (normMax c)) p rows j hj
+  rw [hoj, hsj, invOrOne_of_le eps _ (normMax_spec _).1 hsub]
+  simp [sc, transformCell]
+
+end subeps
+
 /-! ### norm scaler -/
 section norm
 variable {α : Type} [Field α] [LinearOrder α] [IsStrictOrderedRing α] [Transc α]
@@ -604,6 +656,122 @@ theorem norm_whiten_commute_with_selection (k : NormKind) (mean : List α) (W ro
     intro i _
     simp [List.getElem?_map]
 
+/-! ### PCA whitening: the certificate is discharged from the contract of the SVD; the floor -/
+
+/-- the centred records `X - mean` handed to the factorisations -/
+def centredRows (p : Nat) (rows : List (List α)) : List (List α) :=
+  rows.map fun r => List.zipWith (fun x m => x - m) r ((cols p rows).map meanCol)
+
+/-- **covariance of PCA-whitened training data, for every dataset** (any targets / weights / names, which
+the fit does not read): if the parameter object's method is PCA and the external `svd(false, true)` of the
+centred records returns `(s, Vᵀ)` meeting the contract of an SVD — Gram identity
+`(X-μ)ᵀ(X-μ) = V diag(s²) Vᵀ`, orthonormal rows of `Vᵀ` — then `Whitener::fit` (as `whitenFitDataset`,
+the function the driver runs) succeeds and the sample covariance of the whitened training data is
+**diagonal with entries `s_a² / max(s_a, floor)²`**.  Needs two rows (`n - 1 > 0`). -/
+theorem pca_fit_cov {ε T W : Type} (hsq : SqrtContract α) (floor : α) (hf : 0 < floor) (ext : Factor α ε)
+    (q : WParams) (hq : q.method = .pca) (p : Nat) (ds : DS (List (List α)) T W)
+    (h2 : 2 ≤ ds.records.length) (hrows : ∀ r ∈ ds.records, r.length = p)
+    (s : List α) (vt : List (List α)) (hsvd : ext.svdVt (centredRows p ds.records) = .ok (s, vt))
+    (hs : s.length = vt.length) (hvt : ∀ w ∈ vt, w.length = p)
+    (hgram : ∀ i j, i < p → j < p →
+      (ds.records.map fun r => (r.getD i 0 - meanCol (col ds.records i)) *
+          (r.getD j 0 - meanCol (col ds.records j))).sum =
+        ∑ k ∈ Finset.range vt.length, wE vt k i * (s.getD k 0 * s.getD k 0) * wE vt k j)
+    (horth : ∀ a b, a < vt.length → b < vt.length →
+      ∑ i ∈ Finset.range p, wE vt a i * wE vt b i = if a = b then 1 else 0) :
+    ∃ mean Wm, whitenFitDataset floor ext q p ds = .ok (mean, Wm) ∧ Wm.length = vt.length ∧
+      ∀ a b, a < vt.length → b < vt.length →
+        covE (whitenTransform mean Wm ds.records) a b =
+          if a = b then (s.getD a 0 * s.getD a 0) / (maxS (s.getD a 0) floor * maxS (s.getD a 0) floor)
+          else 0 := by
+  have hn : ds.records ≠ [] := by
+    intro h; rw [h] at h2; simp at h2
+  have hd : whitenDecomp floor ds.records.length ext .pca
+      (ds.records.map fun r => List.zipWith (fun x m => x - m) r ((cols p ds.records).map meanCol)) =
+      .ok (pcaAssemble floor ds.records.length s vt) := by
+    have := hsvd
+    unfold centredRows at this
+    simp only [whitenDecomp, this]
+  refine ⟨(cols p ds.records).map meanCol, pcaAssemble floor ds.records.length s vt, ?_,
+    pcaAssemble_length floor _ s vt hs, ?_⟩
+  · unfold whitenFitDataset whitenFitParams
+    rw [hq]
+    exact whiten_fit_spec _ p ds.records _ hn hd
+  · intro a b ha hb
+    have hWl := pcaAssemble_length floor ds.records.length s vt hs
+    rw [covE_whitened p ds.records _ hn hrows (pcaAssemble_row_length floor _ s vt p hvt) a b
+      (hWl ▸ ha) (hWl ▸ hb)]
+    exact pca_WSWt hsq floor hf p ds.records s vt h2 hs hgram horth a b ha hb
+
+/-- **PCA whitening gives identity sample covariance on full-rank data** — "full rank" in the form the code
+decides it: no singular value of the centred data below the floor (`1e-8`).  The certificate `W cov Wᵀ = I`
+that `whiten_identity_cov` assumes is *derived* here from the SVD contract. -/
+theorem pca_whitens {ε T W : Type} (hsq : SqrtContract α) (floor : α) (hf : 0 < floor) (ext : Factor α ε)
+    (q : WParams) (hq : q.method = .pca) (p : Nat) (ds : DS (List (List α)) T W)
+    (h2 : 2 ≤ ds.records.length) (hrows : ∀ r ∈ ds.records, r.length = p)
+    (s : List α) (vt : List (List α)) (hsvd : ext.svdVt (centredRows p ds.records) = .ok (s, vt))
+    (hs : s.length = vt.length) (hvt : ∀ w ∈ vt, w.length = p)
+    (hgram : ∀ i j, i < p → j < p →
+      (ds.records.map fun r => (r.getD i 0 - meanCol (col ds.records i)) *
+          (r.getD j 0 - meanCol (col ds.records j))).sum =
+        ∑ k ∈ Finset.range vt.length, wE vt k i * (s.getD k 0 * s.getD k 0) * wE vt k j)
+    (horth : ∀ a b, a < vt.length → b < vt.length →
+      ∑ i ∈ Finset.range p, wE vt a i * wE vt b i = if a = b then 1 else 0)
+    (hfloor : ∀ a, a < vt.length → floor ≤ s.getD a 0) :
+    ∃ mean Wm, whitenFitDataset floor ext q p ds = .ok (mean, Wm) ∧ Wm.length = vt.length ∧
+      ∀ a b, a < vt.length → b < vt.length →
+        covE (whitenTransform mean Wm ds.records) a b = if a = b then 1 else 0 := by
+  obtain ⟨mean, Wm, h1, h2', h3⟩ := pca_fit_cov hsq floor hf ext q hq p ds h2 hrows s vt hsvd hs hvt hgram horth
+  refine ⟨mean, Wm, h1, h2', ?_⟩
+  intro a b ha hb
+  rw [h3 a b ha hb]
+  by_cases hab : a = b
+  · simp only [if_pos hab]
+    have hmax : maxS (s.getD a 0) floor = s.getD a 0 := by
+      unfold maxS; rw [if_neg (not_lt.mpr (hfloor a ha))]
+    have hpos : 0 < s.getD a 0 := lt_of_lt_of_le hf (hfloor a ha)
+    rw [hmax]; exact div_self (mul_pos hpos hpos).ne'
+  · simp only [if_neg hab]
+
+/-- **below the floor the data is not whitened** (open finding `C16-whiten-pca-tiny-scale`, for every dataset):
+a singular value `0 ≤ s_a < floor` is replaced by the floor, and the variance of the whitened component `a`
+is `(s_a / floor)² < 1`. -/
+theorem pca_floor_hit_not_white {ε T W : Type} (hsq : SqrtContract α) (floor : α) (hf : 0 < floor)
+    (ext : Factor α ε) (q : WParams) (hq : q.method = .pca) (p : Nat) (ds : DS (List (List α)) T W)
+    (h2 : 2 ≤ ds.records.length) (hrows : ∀ r ∈ ds.records, r.length = p)
+    (s : List α) (vt : List (List α)) (hsvd : ext.svdVt (centredRows p ds.records) = .ok (s, vt))
+    (hs : s.length = vt.length) (hvt : ∀ w ∈ vt, w.length = p)
+    (hgram : ∀ i j, i < p → j < p →
+      (ds.records.map fun r => (r.getD i 0 - meanCol (col ds.records i)) *
+          (r.getD j 0 - meanCol (col ds.records j))).sum =
+        ∑ k ∈ Finset.range vt.length, wE vt k i * (s.getD k 0 * s.getD k 0) * wE vt k j)
+    (horth : ∀ a b, a < vt.length → b < vt.length →
+      ∑ i ∈ Finset.range p, wE vt a i * wE vt b i = if a = b then 1 else 0)
+    (a : Nat) (ha : a < vt.length) (hnn : 0 ≤ s.getD a 0) (hlow : s.getD a 0 < floor) :
+    ∃ mean Wm, whitenFitDataset floor ext q p ds = .ok (mean, Wm) ∧
+      covE (whitenTransform mean Wm ds.records) a a = (s.getD a 0 * s.getD a 0) / (floor * floor) ∧
+      covE (whitenTransform mean Wm ds.records) a a < 1 := by
+  obtain ⟨mean, Wm, h1, _, h3⟩ := pca_fit_cov hsq floor hf ext q hq p ds h2 hrows s vt hsvd hs hvt hgram horth
+  have hmax : maxS (s.getD a 0) floor = floor := by unfold maxS; rw [if_pos hlow]
+  have hval := h3 a a ha ha
+  rw [if_pos rfl, hmax] at hval
+  refine ⟨mean, Wm, h1, hval, ?_⟩
+  rw [hval, div_lt_one (mul_pos hf hf)]
+  exact mul_lt_mul'' hlow hlow hnn hnn
+
+/-- **the fit reads the records only**: targets, sample weights and names of the training dataset do not
+influence the fitted scaler / whitener (`self.method.fit(x.records())`, `x.records()` / `x.nsamples()`) —
+stated for `fitDataset` / `whitenFitDataset`, the functions the driver answers the requests through
+(the harness fits on weighted datasets in a third of the cases). -/
+theorem fit_ignores_weights_targets {ε T W T' W' : Type} (eps floor : α) (p : Nat) (qp : Params α) (qw : WParams)
+    (ext : Factor α ε) (ds : DS (List (List α)) T W) (t' : T') (w' : W') (fn tn : List String) :
+    fitDataset eps p qp { records := ds.records, targets := t', weights := w', featureNames := fn, targetNames := tn } =
+      fitDataset eps p qp ds ∧
+    whitenFitDataset floor ext qw p
+        { records := ds.records, targets := t', weights := w', featureNames := fn, targetNames := tn } =
+      whitenFitDataset floor ext qw p ds :=
+  ⟨rfl, rfl⟩
+
 end errors
 
 /-! ### the guards are not vacuous, and what happens below them -/
@@ -671,7 +839,52 @@ example : (∀ x ∈ col ([[7, 2], [7, 5]] : List (List ℚ)) 0, x = 7) ∧
     ((Params.maxAbs (α := ℚ)).setMethod (.standard true false)).method = .standard true false := by
   simp [col, Params.setMethod]
 
+/-- `standard_sub_eps_unscaled` / `maxabs_sub_eps_unscaled`: a non-constant column below the machine epsilon -/
+example : normMax (col ([[1 / 2 ^ 60], [1 / 2 ^ 61]] : List (List ℚ)) 0) ≤ 1 / 2 ^ 52 := by
+  simp [col, normMax, maxS, absS]; norm_num
+
+/-- `pca_whitens` / `pca_fit_cov`: the SVD contract is satisfiable on non-trivial data — two uncorrelated
+centred features with Gram matrix `diag(16, 4)`, `Vᵀ = I`, `s = [4, 2]`, all above the floor `1e-8` -/
+example :
+    let rows : List (List ℚ) := [[2, 1], [-2, 1], [2, -1], [-2, -1]]
+    let vt : List (List ℚ) := [[1, 0], [0, 1]]
+    let s : List ℚ := [4, 2]
+    (∀ i j, i < 2 → j < 2 →
+      (rows.map fun r => (r.getD i 0 - meanCol (col rows i)) * (r.getD j 0 - meanCol (col rows j))).sum =
+        ∑ k ∈ Finset.range vt.length, wE vt k i * (s.getD k 0 * s.getD k 0) * wE vt k j) ∧
+    (∀ a b, a < vt.length → b < vt.length →
+      ∑ i ∈ Finset.range 2, wE vt a i * wE vt b i = if a = b then 1 else 0) ∧
+    (∀ a, a < vt.length → (1 / 10 ^ 8 : ℚ) ≤ s.getD a 0) := by
+  intro rows vt s
+  refine ⟨?_, ?_, ?_⟩
+  · intro i j hi hj
+    have h2a : i = 0 ∨ i = 1 := by omega
+    have h2b : j = 0 ∨ j = 1 := by omega
+    rcases h2a with rfl | rfl <;> rcases h2b with rfl | rfl <;>
+      simp [Finset.sum_range_succ, wE, col, meanCol, sumS, rows, vt, s] <;> norm_num
+  · intro a b ha hb
+    have ha' : a < 2 := ha
+    have hb' : b < 2 := hb
+    have h2a : a = 0 ∨ a = 1 := by omega
+    have h2b : b = 0 ∨ b = 1 := by omega
+    rcases h2a with rfl | rfl <;> rcases h2b with rfl | rfl <;>
+      simp [Finset.sum_range_succ, wE, vt]
+  · intro a ha
+    have ha' : a < 2 := ha
+    have h2a : a = 0 ∨ a = 1 := by omega
+    rcases h2a with rfl | rfl <;> simp [s] <;> norm_num
+
+/-- `pca_floor_hit_not_white`: a singular value below the floor — `s = [1 / 10^9]` against the floor `1 / 10^8` -/
+example : (0 : ℚ) ≤ ([1 / 10 ^ 9] : List ℚ).getD 0 0 ∧ ([1 / 10 ^ 9] : List ℚ).getD 0 0 < 1 / 10 ^ 8 := by
+  simp; norm_num
+
 noncomputable local instance : Transc ℝ := ⟨Real.sqrt, id, id⟩
+
+/-- `fit_ignores_weights_targets`: a weighted dataset and the same records without weights reach the same fit -/
+example : fitDataset (T := Unit) (W := List Nat) (1 / 2 ^ 52 : ℝ) 1 (Params.minMax)
+      { records := [[1], [3]], targets := (), weights := [5, 1], featureNames := [], targetNames := [] } =
+    fitMinMax (1 / 2 ^ 52 : ℝ) 1 [[1], [3]] 0 1 := rfl
+
 
 /-- the square-root contract holds for the real square root -/
 example : SqrtContract ℝ := fun x hx => ⟨Real.mul_self_sqrt hx, Real.sqrt_nonneg x⟩
